@@ -28,7 +28,8 @@ import numpy as np
 from .. import exprs as E
 from .. import gen
 from .. import pymodel
-from .common import (Kept, as_params, as_t, as_x, build_both, compare_errors, fd_jacobian, fl, freeze, mpf, mpf_s, net_oracle,
+from .common import BIG_FORMS
+from .common import (Kept, as_params, as_t, as_x, build_both, compare_errors, dtype_probe, fd_jacobian, fl, freeze, mpf, mpf_s, net_oracle,
                      spec_oracle, sym_vs_lean, vec_close)
 
 PROP = "C03"
@@ -53,7 +54,7 @@ H1 = mpf("1e-15")
 H2 = mpf("1e-10")
 
 
-N_POINTS = 3          # two rational points and one integer-valued point (handed over as ints / integer arrays)
+N_POINTS = 3          # two rational points and one integer-valued point with zero states (handed over as ints / integer arrays)
 
 
 def make_cases(rng, tier, budget):
@@ -63,9 +64,11 @@ def make_cases(rng, tier, budget):
         r = random.Random(rng.getrandbits(64))
         spec, meta = gen.gen_model(r, min_events=1, routes=("event", "event_eq", "event_bare"))
         pts = [gen.rand_point(r, meta) for _ in range(N_POINTS - 1)] + [gen.rand_point(r, meta, integer=True, zeros=True)]
+        big = gen.rand_point(r, meta, integer=True, big=True)
         perm = list(range(len(meta["params"])))
         r.shuffle(perm)
-        probe = {"forms": gen_forms(r, pts, meta["states"]), "reassign_form": r.choice(["list", "tuple", "ndarray", "dict_name", "pairs"]),
+        probe = {"big": {"point": {k: str(v) for k, v in big.items()}, "x": r.choice(BIG_FORMS)},
+                 "forms": gen_forms(r, pts, meta["states"]), "reassign_form": r.choice(["list", "tuple", "ndarray", "dict_name", "pairs"]),
                  "sibling": {"state_rev": r.random() < 0.4, "param_perm": perm, "derived_bump": r.random() < 0.5,
                              "last_event_incremental": r.random() < 0.6}}
         cases.append({"spec": spec, "meta": meta, "points": [{k: str(v) for k, v in p.items()} for p in pts], "probe": probe})
@@ -319,7 +322,20 @@ class Session(object):
         self.nz["GG"] = self.nz["GG"] or bool(np.any(np.abs(O["grad_grad"]) > 1e-9))
         st = {"label": label, "pt": pt, "lean": Ln, "oracle": O, "first_row": first_row}
         self.steps.append(st)
+        nv = len(viol)
         self.judge(st, vals, "")
+        if len(viol) > nv and (form["x"].startswith("ndarray_int") or form["t"] == "np.int64"):
+            # wrong for a numpy integer dtype, right for the same point as Python floats?  then the input class is the dtype
+            xf, tf = fl(env, self.states), float(env["t"])
+            for v in viol[nv:]:
+                name = v.get("evaluator")
+                try:
+                    again = np.array(getattr(model, name)(xf, tf), float).reshape(self.shape[name])
+                except Exception:
+                    continue
+                if mat_close(again, O[name].reshape(again.shape), rel=TOL[name], abs_=TOL[name]):
+                    v["signature"] = "integer-dtype-state:%s" % name
+                    v["what"] += " - for x as %s / t as %s only (right for the same point as Python floats: fixed-width integer wrap-around)" % (form["x"], form["t"])
         return len(mism) + len(viol) == n0
 
     def keep_params(self, env):
@@ -364,20 +380,27 @@ class Session(object):
                                   "signature": "%s:not-derivative" % twin, "detail": "got %s expected %s" % (got.tolist(), O[name].tolist())})
         self.tags.append("twins")
 
+    def dtype_probe(self, env, xform):
+        if self.dead or self.mism or self.viol:
+            return
+        v, tg = dtype_probe(self.model, EVALS + ("ode",), self.states, self.params, env, xform, self.who)
+        self.viol += v; self.tags += tg
+        self.cur = {p: env[p] for p in self.params}
+
     def judge(self, st, vals, kind):
         label, pt = st["label"], st["pt"]
         pre = self.who + ("[%s] " % label) + ("KEPT result, looked at after the later calls: " if kind else "")
         for name in EVALS + ("ode",):
             N = vals[name]
+            O = st["oracle"][name].reshape(N.shape)
             if not kind:
                 L = st["lean"][name].reshape(N.shape)
                 if not mat_close(N, L, rel=1e-9, abs_=1e-10):
                     self.mism.append({"what": name + "(x,t)", "detail": "python %s lean %s at %s" % (N.tolist(), L.tolist(), pt)})
-            O = st["oracle"][name].reshape(N.shape)
             if not mat_close(N, O, rel=TOL[name], abs_=TOL[name]):
                 sgn = ("kept:" if kind else ("history:" if label in HISTORY_LABELS else "")) + ("%s:not-derivative" % name if name != "ode" else "ode:not-rhs")
                 self.viol.append({"what": pre + "%s(x,t) is not the derivative / definition (finite-difference oracle)" % name,
-                                  "signature": sgn, "detail": "got %s expected %s at %s" % (N.tolist(), O.tolist(), pt)})
+                                  "signature": sgn, "evaluator": name, "detail": "got %s expected %s at %s" % (N.tolist(), O.tolist(), pt)})
 
     def finish(self):
         if self.dead or self.mism or self.viol:
@@ -410,6 +433,11 @@ class Session(object):
         self.step(env, form, label)
 
 
+def pref(prefix, signature):
+    """which instance failed is part of the signature, except where the input class alone names the failure"""
+    return signature if signature.startswith("integer-dtype-state:") else prefix + signature
+
+
 def run_case(case):
     spec, meta = case["spec"], case["meta"]
     pts = [{k: Fraction(v) for k, v in p.items()} for p in case["points"]]
@@ -423,6 +451,9 @@ def run_case(case):
             ok = A.step(env, forms[k], "point%d" % k, symbolic=True)
             if not ok:
                 break
+    if ok and probe.get("big"):
+        A.dtype_probe({k: Fraction(v) for k, v in probe["big"]["point"].items()}, probe["big"]["x"])
+        ok = not (A.mism or A.viol)
     if ok and probe and len(pts) >= 2:
         # history on one instance: (x, t) of point 0 with the parameter values of point 1, then the first values again
         env_r = dict(pts[0]); env_r.update({p: pts[1][p] for p in A.params})
@@ -460,7 +491,7 @@ def run_case(case):
         B.finish()
     if C is not None:
         C.finish()
-        A.viol += [dict(v, signature="deepcopy:" + v.get("signature", "")) for v in C.viol]
+        A.viol += [dict(v, signature=pref("deepcopy:", v.get("signature", ""))) for v in C.viol]
         A.mism += [dict(m_, what="deepcopy:" + m_["what"]) for m_ in C.mism]
     if not (A.mism or A.viol) and (B is None or not (B.mism or B.viol)):
         A.after_scribble(pts[1 % len(pts)], forms[1 % len(pts)], "after-caller-wrote-into-results")
@@ -470,7 +501,7 @@ def run_case(case):
          "sample": {"spec": spec, "point": case["points"][0]}}
     if B is not None:
         for v in B.viol:
-            r["violations"].append(dict(v, signature="sibling:" + v.get("signature", "")))
+            r["violations"].append(dict(v, signature=pref("sibling:", v.get("signature", ""))))
         for m_ in B.mism:
             r["mismatches"].append(dict(m_, what="sibling:" + m_["what"]))
         r["tags"] += [tg for tg in B.tags if tg.startswith(("staged", "touch", "kept", "x:", "t:", "p:", "rejected"))]
